@@ -67,9 +67,11 @@ ASSUMPTIONS = ["update_* / get_* store and return the numbers bit for bit (verif
                "total_radiated_power / fractional_abundance are not implemented by OpenADAS: NotImplementedError (a RuntimeError) "
                "is accepted for every flag combination",
                "z-effective and b-field are not 'density, temperature or energy': no <=0 -> 0 demand on them"]
-TOLERANCES = {"grid": "1e-9 relative per element: cubic spline through its knots in log10 space, |log10 value| <= ~60, "
-                      "error <= few ulp(60) * ln10 ~ 1e-13, plus log10/10** round trip; generous x1e4 margin, still 8 digits "
-                      "below any wrong conversion factor",
+TOLERANCES = {"grid": "1e-9 relative per element: cubic spline evaluated at its own knots in log10 space, |log10 value| <= ~60 so "
+                      "one ulp of the exponent is ~1.6e-14 relative after 10**; the bi/tri-cubic coefficient solve amplifies this "
+                      "(measured maxima over 3e4 random tables: 4e-13 for 2-D, 4e-12 for the 3-D thermal CX PEC, 7e-14 beam CX); "
+                      "1e-9 leaves >= 100x margin and is still 5 orders below the smallest wrong conversion (D/H wavelength 2.7e-4); "
+                      "the evidence histogram info.grid_relerr records the errors actually seen",
               "isotope==element": "1e-12 relative (identical arithmetic on identical data); photon rates compared as value*lambda, 1e-9",
               "zero": "exact 0.0 for non-positive arguments and null rates"}
 
@@ -95,6 +97,27 @@ ARITY = dict([(a, 2) for a in ADF11] + [(a, 2) for a in PEC2] + [("thermal_cx_ra
              + [(a, 3) for a in BEAM_ACC])
 BCX_AXES = (("eb", "qeb"), ("ti", "qti"), ("ni", "qni"), ("z", "qz"), ("b", "qb"))
 NONPOS = [0.0, -0.0, -1.0, -1e-300, -1e300, -37.5]
+
+
+_counts = {"grid_points": 0, "interior_points": 0, "nonpositive_args": 0, "out_of_range_raises": 0, "extrapolated_values": 0,
+           "null_rate_values": 0, "runtimeerror_expected": 0,
+           "grid_relerr": {"<=1e-14": 0, "<=1e-12": 0, "<=1e-10": 0, "<=1e-9": 0, ">1e-9": 0},
+           "extrapolated_log10_abs": {"<=50": 0, "<=150": 0, "<=300": 0, "underflow_to_0": 0}}
+
+
+def shard_info():
+    return {k: (dict(v) if isinstance(v, dict) else v) for k, v in _counts.items()}
+
+
+def _count_err(ratio):
+    e = np.abs(np.asarray(ratio, dtype=float) - 1.0).ravel()
+    h = _counts["grid_relerr"]
+    _counts["grid_points"] += int(e.size)
+    h["<=1e-14"] += int(np.sum(e <= 1e-14))
+    h["<=1e-12"] += int(np.sum((e > 1e-14) & (e <= 1e-12)))
+    h["<=1e-10"] += int(np.sum((e > 1e-12) & (e <= 1e-10)))
+    h["<=1e-9"] += int(np.sum((e > 1e-10) & (e <= 1e-9)))
+    h[">1e-9"] += int(np.sum(~(e <= 1e-9)))
 
 
 def _flag_label(fl):
@@ -185,6 +208,7 @@ def _call(ctx, what, rate, args):
 def _check_zero_everywhere(ctx, what, rate, battery):
     for args in battery:
         v = _call(ctx, what, rate, args)
+        _counts["null_rate_values"] += 1
         ctx.check(v == 0.0, what, lambda: "null rate returned %r at %r" % (v, args))
 
 
@@ -199,6 +223,7 @@ def _points(ctx, what, rate, axes, guarded, case, ext, ref=None, ref_scale=1.0):
     for u in us:
         p = [_axis_point(axes[k], u[k]) for k in range(na)]
         v = _call(ctx, what + ":interior", rate, p)
+        _counts["interior_points"] += 1
         ctx.check(math.isfinite(v) and v >= 0.0, what + ":interior", lambda: "value %r at interior point %r" % (v, p))
         if ref is not None:
             w = _call(ctx, what + ":interior-element", ref, p)
@@ -215,6 +240,7 @@ def _points(ctx, what, rate, axes, guarded, case, ext, ref=None, ref_scale=1.0):
         p = list(base)
         p[k] = bad
         v = _call(ctx, what + ":nonpositive", rate, p)
+        _counts["nonpositive_args"] += 1
         ctx.check(v == 0.0, what + ":nonpositive", lambda: "argument %d = %r is non-positive but the rate is %r at %r" % (k, bad, v, p))
     # ---- outside the tabulated range, one axis at a time, up to one decade
     base = [_axis_point(axes[k], us[0][k]) for k in range(na)] if not case.get("out_on_grid") else \
@@ -229,10 +255,18 @@ def _points(ctx, what, rate, axes, guarded, case, ext, ref=None, ref_scale=1.0):
             p[k] = axes[k][0] / f if side == 0 else axes[k][-1] * f
             if ext:
                 v = _call(ctx, what + ":extrapolated", rate, p)
+                _counts["extrapolated_values"] += 1
+                hh = _counts["extrapolated_log10_abs"]
+                if v == 0.0:
+                    hh["underflow_to_0"] += 1
+                elif math.isfinite(v):
+                    a = abs(math.log10(v))
+                    hh["<=50" if a <= 50 else ("<=150" if a <= 150 else "<=300")] += 1
                 ctx.check(math.isfinite(v) and v >= 0.0, what + ":extrapolated",
                           lambda: "extrapolation permitted but value is %r at %r (axis %d range %r..%r)" % (v, p, k, axes[k][0], axes[k][-1]))
             else:
                 ctx.raises((Exception,), what + ":out-of-range", rate, *p)
+                _counts["out_of_range_raises"] += 1
     ctx.label("range:" + ("extrapolate" if ext else "raise"))
     return multi
 
@@ -318,6 +352,7 @@ def run_tab(case, ctx):
             p = [axes[k][i] for k, i in enumerate(idx)]
             got[idx] = _call(ctx, what + ":grid", rate, p)
         ctx.check(bool(np.all(got >= 0.0)), what + ":nonnegative", lambda: "negative value at a grid point: %r" % (got.min(),))
+        _count_err(got / want)
         ctx.close(got / want, np.ones_like(want), what + ":grid", rtol=1e-9,
                   info="(ratio rate(grid)/(table*conversion); conversion=%r, wavelength=%r)" % (conv, lam))
         # --- isotope request == element request (through the same provider)
@@ -405,6 +440,7 @@ def run_beam(case, ctx):
         for idx in np.ndindex(*want.shape):
             got[idx] = _call(ctx, acc + ":grid", rate, [axes[k][i] for k, i in enumerate(idx)])
         ctx.check(bool(np.all(got >= 0.0)), acc + ":nonnegative", lambda: "negative value at a grid point: %r" % (got.min(),))
+        _count_err(got / want)
         ctx.close(got / want, np.ones_like(want), acc + ":grid", rtol=1e-9,
                   info="(ratio rate(grid)/(sen*st/sref*conversion); conversion=%r, wavelength=%r)" % (conv, lam))
         ref, scale = None, 1.0
@@ -509,6 +545,7 @@ def run_beamcx(case, ctx):
                 v = _call(ctx, acc + ":grid", rate, p)
                 w = want_at(idx)
                 ctx.check(v >= 0.0, acc + ":nonnegative", lambda: "negative value %r at grid point %r" % (v, p))
+                _count_err(v / w)
                 ctx.close(v / w, 1.0, acc + ":grid", rtol=1e-9,
                           info="(ratio rate(grid)/(qeb*qti*qni*qz*qb/qref^4 * hc/lambda) at index %r; wavelength=%r)" % (idx, lam))
                 if ref is not None:
@@ -562,6 +599,7 @@ def _expect_missing(ctx, what, getter, null, battery, lenient_null=False, is_lis
     """missing data: RuntimeError, or (null requested) a rate that is zero at the battery."""
     if not null:
         ctx.raises((RuntimeError,), what, getter)
+        _counts["runtimeerror_expected"] += 1
         return
     try:
         rate = getter()
@@ -959,9 +997,9 @@ def matrix_cases(tier):
 
 SUBCHECKS = {
     "matrix": Enum(matrix_cases, run_any),
-    "tab": Given(tab_case, run_any, quick=1000, thorough=40000),
-    "beam": Given(beam_case, run_any, quick=480, thorough=16000),
-    "beamcx": Given(beamcx_case, run_any, quick=320, thorough=12000),
-    "wl": Given(wl_case, run_any, quick=240, thorough=6000),
-    "missing": Given(missing_case, run_any, quick=600, thorough=16000),
+    "tab": Given(tab_case, run_any, quick=1600, thorough=30000),
+    "beam": Given(beam_case, run_any, quick=800, thorough=12000),
+    "beamcx": Given(beamcx_case, run_any, quick=480, thorough=8000),
+    "wl": Given(wl_case, run_any, quick=320, thorough=4000),
+    "missing": Given(missing_case, run_any, quick=800, thorough=12000),
 }
